@@ -446,7 +446,7 @@ fn parser_sweep(prop: &mut Property, ctx: &Ctx) {
         prop.subs.push(Sub::new(
             "parsers/headers-and-substitutions",
             np,
-            "each parser x {every foreign header, own header minus its last character, empty header, header only} x 3 bodies; and for every valid sample of its kind every character position x substitute in {'=', '+', '/', '.', ' ', NUL, 'é', 'A'} and every prefix of the sample",
+            "each parser x {every foreign header, own header minus its last character, empty header, header only} x 3 bodies; and for every valid sample of its kind every character position x substitute in {'=', '+', '/', '.', ' ', NUL, 'é', 'A'}, every prefix of the sample, and 2 / 3 / 4 bytes replaced by one 2- / 3- / 4-byte character at every byte offset (same total length)",
             move |idx, describe| {
                 let p = &ps[idx as usize];
                 let mut strings: Vec<String> = Vec::new();
@@ -478,6 +478,15 @@ fn parser_sweep(prop: &mut Property, ctx: &Ctx) {
                 for cut in 0..sample.len() {
                     if sample.is_char_boundary(cut) {
                         strings.push(sample[..cut].to_string());
+                    }
+                }
+                // length-preserving substitutions: k bytes replaced by one k-byte character at every byte offset (a
+                // parser that slices at fixed byte offsets meets a character boundary that is not where it expects)
+                if sample.is_ascii() {
+                    for (k, ch) in [(2usize, "\u{e9}"), (3, "\u{20ac}"), (4, "\u{1f600}")] {
+                        for at in 0..sample.len().saturating_sub(k - 1) {
+                            strings.push(format!("{}{ch}{}", &sample[..at], &sample[at + k..]));
+                        }
                     }
                 }
                 let mut o = dispatch(p.backend_idx, ParseUse { kind: p.kind, strings: &strings });
